@@ -176,7 +176,9 @@ func (sc *Scenario) submit(cb string, sub Sub) {
 		if sub.Kind == "call" {
 			subj = "call." + rid + ".m"
 		}
-		sc.conn.Deliver(subj, "inbox."+cb, []byte(`{"query":"cb=`+cb+`"}`))
+		if n, _ := sc.conn.Deliver(subj, "inbox."+cb, []byte(`{"query":"cb=`+cb+`"}`)); n > 0 {
+			sc.tr.Log("delivered", cb)
+		}
 	case "nomatch":
 		if err := sc.svc.With("test.nothing.here", func(res.Resource) { sc.body(cb, "nomatch") }); err == nil {
 			sc.violate("C02", "with-no-error", "With on a resource id without handler returned nil", nil)
